@@ -86,8 +86,40 @@ def second_session(ctx, case, r, oracles, model, use_model, remount_every):
     ctx.dist["second-session"] += 1
 
 
+def fill_cases(ctx):
+    """'... including filling the volume until it reports no space': volumes whose data area ends in a PARTIAL cluster (the sectors behind
+    the last whole cluster belong to the volume but to no cluster), at non-zero offsets; files of several clusters, then of one byte, until
+    every request is refused; one file removed and the space filled again"""
+    from .. import fatspec
+    out = []
+    geoms = [dict(ft=12, clusters=40, spc=4, rootent=32, extra_sectors=3), dict(ft=16, clusters=4090, spc=2, rootent=32, extra_sectors=1),
+             dict(ft=32, clusters=70, spc=8, extra_sectors=7), dict(ft=12, clusters=25, spc=2, bps=1024, rootent=16, extra_sectors=1)]
+    if ctx.tier == "quick":
+        geoms = [geoms[0], geoms[2], geoms[3]]
+    for gi, g in enumerate(geoms):
+        kw = dict(g)
+        ft = kw.pop("ft")
+        img, info = fatspec.build(ft, **kw)
+        bpc = info["bpc"]
+        big = g["clusters"] > 1000
+        ops = [["makedir", "/f"]]
+        n = 0
+        per = (g["clusters"] // 12 + 1) if not big else g["clusters"] // 6
+        for i in range(16 if not big else 8):
+            ops += [["open", f"h{n}", f"/f/BIG{i:02d}.BIN", "w"], ["write", f"h{n}", "%02x" % (0x41 + i) * (per * bpc)], ["hclose", f"h{n}"]]
+            n += 1
+        for i in range(6):
+            ops += [["open", f"h{n}", f"/f/ONE{i:02d}.BIN", "w"], ["write", f"h{n}", "7a"], ["hclose", f"h{n}"]]
+            n += 1
+        ops += [["remove", "/f/BIG01.BIN"], ["open", f"h{n}", "/f/AGAIN.BIN", "w"], ["write", f"h{n}", "62" * ((per + 1) * bpc)], ["hclose", f"h{n}"],
+                ["open", f"h{n + 1}", "/f/AGAIN2.BIN", "w"], ["write", f"h{n + 1}", "63" * (per * bpc)], ["hclose", f"h{n + 1}"], ["listdir", "/f"], ["closefs"]]
+        meta = dict(source="build", ft=ft, **kw)
+        out.append(history.Case(f"fill{ft}-partial-last-cluster-{gi}", img, ops, mount=dict(encoding="ibm437", offset=(0, 1536, 4096, 512)[gi % 4]), meta=meta))
+    return out
+
+
 def run_histories(ctx, oracles, nprog, nops, kind="namespace", vol_filter=None, mounts=None, remount_every=False,
-                  extra_cases=(), add_close=True, use_model=True, uni=True, scripted=True, high=False):
+                  extra_cases=(), add_close=True, use_model=True, uni=True, scripted=True, high=False, fill=None):
     vols = gen.volumes(ctx.tier, high=high)
     if vol_filter:
         vols = [v for v in vols if vol_filter(v[0])]
@@ -143,8 +175,15 @@ def run_histories(ctx, oracles, nprog, nops, kind="namespace", vol_filter=None, 
             ctx.dist["vol:" + label] += 1
             ctx.sample(dict(volume=label, mount=mnt, ops=[o[:3] if o[0] != "write" else [o[0], o[1], f"<{len(o[2]) // 2} bytes>"] for o in ops[:12]],
                             n_ops=len(ops), errors=nerr))
-        for case in extra_cases:
-            history.run_case(ctx, case, oracles=oracles, model=m, use_model=use_model, remount_every=remount_every)
+        if fill is None:
+            fill = scripted and vol_filter is None and any(o in oracles for o in ("fsck", "interop", "io_bounds", "remount"))
+        for case in list(extra_cases) + (fill_cases(ctx) if fill else []):
+            if ctx.time_left() < 5:
+                break
+            if case.label.startswith("fill") and "offset" in case.mount and "io_bounds" not in oracles:
+                case.mount = {k: v for k, v in case.mount.items() if k != "offset"}
+            history.run_case(ctx, case, oracles=oracles, model=m, use_model=use_model, remount_every=False)
+            ctx.dist["fill-case" if case.label.startswith("fill") else "extra-case"] += 1
     finally:
         if m:
             m.close()
